@@ -147,7 +147,8 @@ def _tlc_cmd(extra_java=()):
 
 def tlc(module, cfg, workdir, workers=8, timeout=1800, env=None, extra=(), heap=None, deque=False):
     """Run TLC on spec/<module>.tla with spec/<cfg>; returns (rc, output)."""
-    meta = os.path.join(workdir, "meta-%s-%d" % (os.path.basename(cfg), int(time.time() * 1000) % 100000))
+    import uuid
+    meta = os.path.join(workdir, "meta-%s-%s" % (os.path.basename(cfg), uuid.uuid4().hex))
     cmd = ["timeout", str(timeout), "tlc", "-workers", str(workers), "-metadir", meta,
            "-config", os.path.join(SPEC, cfg)] + list(extra) + [os.path.join(SPEC, module + ".tla")]
     e = dict(os.environ)
